@@ -1022,9 +1022,6 @@ package server
 //@ func Server.cmdReplConf
 //@   frame-by-effects
 //@   entry-assume s != nil && msg != nil && len(msg.Args) > 0 && s.config != nil
-//@ func Server.cmdSET
-//@   frame-by-effects
-//@   entry-assume s != nil && msg != nil && len(msg.Args) > 0 && s.config != nil
 //@ func Server.cmdSTATS
 //@   frame-by-effects
 //@   entry-assume s != nil && msg != nil && len(msg.Args) > 0 && s.config != nil
@@ -1092,3 +1089,31 @@ package server
 //@   at-return [persist.model] result2 == nil && kcol(s, msg) != nil && objs0[msg.Args[2]] != nil && objExpires(objs0[msg.Args[2]]) != 0 ==> result1.updated && kcol(s, msg).objs == store(objs0, msg.Args[2], result1.obj) && objExpires(result1.obj) == 0 && objID(result1.obj) == msg.Args[2] && objGeo(result1.obj) == objGeo(objs0[msg.Args[2]]) && objFields(result1.obj) == objFields(objs0[msg.Args[2]])
 //@   at-return [persist.others] result2 == nil ==> allint(c, c != kcol(s, msg) ==> astype(c, "collection.Collection").objs == old(astype(c, "collection.Collection").objs))
 //@   ensures [reply] result2 == nil && msg.OutputType == RESP ==> result0 == respInt(ite(result1.updated, 1, 0))
+
+// ---- SET against the map model (C01): the operation, given the parsed request --------------------------
+// The argument parser (loop 1) produces key, id, fields, ex, nx, xx and the geometry oobj; what is specified is what the
+// operation then does with them: NX/XX decide whether anything happens; a missing collection is created; the new
+// object has the id, the parsed geometry, the parsed deadline and the old object's fields with every FIELD argument
+// set in order (or just the FIELD arguments for a new id); nothing else changes.
+//@ ghost func foldAll(F map[string]ref, fs []ref, n int) map[string]ref
+//@ axiom fold.all.0: allof("map[string]ref", F, allof("[]ref", fs, foldAll(F, fs, 0) == F))
+//@ axiom fold.all.step: allof("map[string]ref", F, allof("[]ref", fs, allint(n, 0 <= n && n < len(fs) ==> foldAll(F, fs, n+1) == store(foldAll(F, fs, n), fldName(fs[n]), fldVal(fs[n])))))
+//@ ghost scratch setF0 map[string]ref
+//@ ghost scratch setOld ref
+//@ func Server.cmdSET
+//@   frame-by-effects
+//@   uses fold.all.0, fold.all.step, sum.nonneg
+//@   entry-assume s.config != nil && registriesNonNil(s) && allstr(k, (*s.cols)[k] != nil ==> colInv((*s.cols)[k])) && allint(c, allstr(k, allocated(astype(c, "collection.Collection").objs[k]))) && allstr(k, allocated((*s.cols)[k])) && ksInj(s)
+//@   requires s != nil && msg != nil
+//@   modifies steps, perCall
+//@   set-at-call Collection.Get#2 objs0 = col.objs
+//@   set-at-call Collection.Get#2 setOld = col.objs[id]
+//@   loop 4 invariant col != nil && colInv(col) && col.objs == objs0 && flist == foldAll(ite(setOld != nil, objFields(setOld), flist0()), fields, idx4) && (*s.cols)[key] == col && allint(c, c != col ==> astype(c, "collection.Collection").objs == old(astype(c, "collection.Collection").objs))
+//@   ensures [error-changes-nothing] result2 != nil ==> *s.cols == old(*s.cols) && colsUntouched()
+//@   at-return [set.refused] result2 == nil && !result1.updated ==> *s.cols == old(*s.cols) && colsUntouched()
+//@   at-return [set.keyspace] result2 == nil && result1.updated ==> *s.cols == store(old(*s.cols), key, col) && col != nil && (old(*s.cols)[key] != nil ==> col == old(*s.cols)[key])
+//@   at-return [set.object] result2 == nil && result1.updated ==> col.objs == store(objs0, id, result1.obj) && objID(result1.obj) == id && objGeo(result1.obj) == oobj && objExpires(result1.obj) == ex && objFields(result1.obj) == foldAll(ite(setOld != nil, objFields(setOld), flist0()), fields, len(fields)) && result1.old == setOld
+//@   at-return [set.nx-xx] result2 == nil && result1.updated ==> (nx ==> setOld == nil) && (xx ==> setOld != nil)
+//@   at-return [set.others] result2 == nil ==> allint(c, c != col ==> astype(c, "collection.Collection").objs == old(astype(c, "collection.Collection").objs))
+//@   at-return [reply] result2 == nil && msg.OutputType == RESP && !ret && result1.updated ==> result0 == respSimple("OK")
+//@   at-return [json-reply] result2 == nil && msg.OutputType == JSON && !ret ==> jsonDoc(result0)
